@@ -14,17 +14,24 @@ class Numpy:
     style = "numpy"
     module = "DocNumpy"
 
-    def __init__(self, griffe):
-        import _griffe.docstrings.numpy as NP  # noqa: PLC0415
+    # the item syntaxes of docs/reference/docstrings.md (`name : type`, `name :`, `: type`, `:`, `n, m : type`, `name : {a, b}`,
+    # `name : type, default x`), own transcriptions, VALIDATED against the parser's behaviour by check_classifier()
+    NAME = r"\*{0,2}[_a-z][_a-z0-9]*"
+    PARAMETER = re.compile(rf"(?P<names>{NAME}(?:,\s{NAME})*)(?:\s:\s(?:(?:\{{(?P<choices>.+)\}})|(?P<type>.+))?)?", re.IGNORECASE)
+    VALUE = re.compile(rf"(?:(?P<nt_name>{NAME})\s*:\s*(?P<nt_type>.+)|(?P<name>{NAME})\s*:\s*|\s*:\s*$|(?::\s*)?(?P<type>.+)\s*)", re.IGNORECASE)
 
-        self.NP = NP
+    def __init__(self, griffe):
+        from gverif.props.c12_probe import probe_titles  # noqa: PLC0415
+
         self.griffe = griffe
-        self.keywords: dict = {}
-        for kw, kind in NP._section_kind.items():
-            self.keywords.setdefault(kind.value.replace(" ", "_"), []).append(kw)
-        readers = {k.value.replace(" ", "_") for k in NP._section_reader}
-        if set(self.keywords) != readers or readers != SPEC_KINDS:
-            die(f"numpy: section kinds of the working tree {sorted(self.keywords)} / readers {sorted(readers)} differ from DocNumpy.tla {sorted(SPEC_KINDS)}")
+        self.keywords = probe_titles(griffe, "numpy")       # PROBED through the public parser at check time
+        self.kind_of = {kw: kind for kind, kws in self.keywords.items() for kw in kws}
+        if set(self.keywords) != SPEC_KINDS:
+            die(f"numpy: the parser accepts titles for the section kinds {sorted(self.keywords)}, DocNumpy.tla models {sorted(SPEC_KINDS)}")
+
+    @staticmethod
+    def is_dash(line: str) -> bool:
+        return bool(line.strip()) and not line.replace("-", "").strip()
 
     # ---- concretiser -----------------------------------------------------------------------------------------
     @staticmethod
@@ -94,22 +101,21 @@ class Numpy:
 
     # ---- classifier ------------------------------------------------------------------------------------------
     def classify(self, line: str) -> dict:
-        NP = self.NP
-        if NP._is_empty_line(line):
+        if not line.strip():
             return {"k": "blank", "ind": 0, "a": "-"}
         n = len(line) - len(line.lstrip(" "))
         ind = 4 if line.startswith(4 * " ") else 2 if line.startswith(" ") else 0
-        if NP._is_dash_line(line):
+        if self.is_dash(line):
             return {"k": "dash", "ind": ind, "a": "-"}
         if line.lower().lstrip(" ").startswith("```"):
             return {"k": "fence", "ind": ind, "a": "-"}
-        if line.lower() in NP._section_kind:
-            return {"k": "hdr", "ind": 0, "a": NP._section_kind[line.lower()].value.replace(" ", "_")}
+        if line.lower() in self.kind_of:
+            return {"k": "hdr", "ind": 0, "a": self.kind_of[line.lower()]}
         body = line[n:]
         if body.startswith(">>>"):
             return {"k": "prompt", "ind": ind, "a": "-" if ":" not in body else "colon"}
-        mP = NP._RE_PARAMETER.match(body)
-        mR = NP._RE_RETURNS.match(body)
+        mP = self.PARAMETER.match(body)
+        mR = self.VALUE.match(body)
         if body == ":":
             form = "C" if mR and not any(mR.groupdict().values()) else "?"
         elif body.startswith(":"):
@@ -147,7 +153,60 @@ class Numpy:
         out += [rec("line", 2, "X"), rec("line", 4, "X"), rec("line", 4, "C"), rec("line", 4, "NT")]
         return out
 
+    # ---- behaviour of the real parser on one spelling (public API only) ---------------------------------------------
+    def behaves_as(self, ln: dict, p: dict) -> str | None:
+        D = self.griffe.Docstring
+        text, k, a = p["text"], ln["k"], ln["a"]
+
+        def parse(doc, **opts):
+            return D(doc).parse("numpy", **opts)
+
+        def kinds(secs):
+            return [s.kind.value.replace(" ", "_") for s in secs]
+
+        if k == "blank":
+            return None if not text.strip() else "not blank"
+        if k == "hdr":
+            secs = parse(f"S.\n\n{text}\n---\nx\n    d")
+            return None if kinds(secs) == ["text", a] else f"parser gives {kinds(secs)}"
+        if k == "dash":        # underlines the line above: an admonition appears
+            secs = parse(f"S.\n\nNote q\n{text}\nbody")
+            return None if kinds(secs) == ["text", "admonition"] and secs[1].title == "Note q" else f"parser gives {kinds(secs)}"
+        if k == "fence":       # opens a code block: the underlined title below is not interpreted
+            secs = parse(f"S.\n\n{text}\nNote q\n------\nbody")
+            return None if kinds(secs) == ["text"] else f"parser gives {kinds(secs)} below the fence"
+        if k == "prompt":
+            secs = parse(f"S.\n\nExamples\n--------\n{text}", trim_doctest_flags=False)
+            subs = [(x.value, y) for x, y in secs[1].value] if len(secs) == 2 and secs[1].kind.value == "examples" else None
+            return None if subs == [("examples", text)] else f"parser gives {subs}"
+        if ln["ind"] != 0:
+            return None
+        # item header forms, as the Parameters and the Returns readers see them
+        ps = parse(f"S.\n\nParameters\n----------\n{text}\n    d")
+        rs = parse(f"S.\n\nReturns\n-------\n{text}\n    d")
+        pv = [(e.name, None if e.annotation is None else str(e.annotation), e.value) for e in ps[1].value] if len(ps) == 2 else []
+        rv = [(e.name, None if e.annotation is None else str(e.annotation)) for e in rs[1].value] if len(rs) == 2 else []
+        names, typ = p.get("names") or [], p.get("type")
+        want_p = {"N": [(names[0], None, None)], "P": [(names[0], None, None)], "NK": [(names[0], None, None)], "F": [(names[0], None, None)],
+                  "NT": [(names[0], typ, None)], "NN": [(n, typ, None) for n in names], "NC": [(names[0], typ, p.get("default"))],
+                  "ND": [(names[0], typ, p.get("default"))], "C": [], "CT": [], "X": []}[a] if names or a in ("C", "CT", "X") else None
+        whole = text.strip()
+        want_r = {"NT": (names[0] if names else "", typ), "NC": (names[0], "{" + (typ or "") + "}"), "NK": (names[0], None), "C": ("", None), "CT": ("", typ)}.get(a, ("", whole))
+        if a == "ND":
+            want_r = (names[0], rv[0][1] if rv else None)       # the Returns reader keeps `type, default x` as the type
+        if a == "P" and names:
+            want_p = [(names[0], None, None)]
+        norm = lambda t: None if t is None else t.replace(" ", "")  # noqa: E731
+        got_p = [(n, norm(t), d) for n, t, d in pv]
+        if want_p is not None and got_p != [(n, norm(t), d) for n, t, d in want_p]:
+            return f"Parameters reader gives {pv}, class says {want_p}"
+        same_type = norm(rv[0][1]) == norm(want_r[1]) or (a == "NT" and (norm(rv[0][1]) or "").startswith(norm(want_r[1]) or "?")) if len(rv) == 1 else False   # the Returns reader keeps `, optional`
+        if len(rv) != 1 or rv[0][0] != want_r[0] or not same_type:
+            return f"Returns reader gives {rv}, class says {want_r}"
+        return None
+
     def check_classifier(self):
+        """Every spelling of every class classifies back to the class, and the PARSER (public API) treats it as that class."""
         n = 0
         for ln in self.long_alphabet():
             for v in range(12):
@@ -157,6 +216,10 @@ class Numpy:
                     n += 1
                     if got != ln:
                         die(f"numpy classifier: spelling {p['text']!r} of class {ln} classifies as {got}")
+                    if i == 3:
+                        diff = self.behaves_as(ln, p)
+                        if diff:
+                            die(f"numpy classifier: the parser does not treat {p['text']!r} as class {ln}: {diff}")
         return n
 
     @staticmethod
